@@ -103,6 +103,13 @@ func (h *c04server) handle(ctx Context, ch ServerChannel) (ref.R[[]byte], status
 	case "early":
 		// responds without reading the client's stream
 		return valueBytes(fmt.Sprintf("res-%d", id)), status.OK
+	case "slow":
+		// never answers on its own: waits until the caller gives up (channel closed / connection lost)
+		for {
+			if _, st := ch.Receive(rctx); !st.OK() {
+				return nil, st
+			}
+		}
 	}
 	return nil, status.Errorf("unknown kind %q", kind)
 }
@@ -354,7 +361,7 @@ func init() {
 
 	// S2: a scripted server answers with malformed replies: never OK.
 	vexp.Register(&vexp.Scenario{
-		Name: "c04.S2.malformed-reply", Prop: "C04", MaxSteps: 100000,
+		Name: "c04.S2.malformed-reply", Prop: "C04", Also: []string{"C18"}, MaxSteps: 100000,
 		Bounds: func(thorough bool) vexp.Bounds { return vexp.Bounds{P: 1, F: 1, E: 0} },
 		Configs: func(thorough bool) []map[string]int {
 			var out []map[string]int
@@ -365,13 +372,24 @@ func init() {
 			}
 			return out
 		},
-		Doc: "mpx-level scripted server replies to a unary / server-streaming call with: garbage bytes, an rpc request message, a stream message then close without response, an empty close, a response without status, a parser-hostile payload, a truncated response: the caller must see a non-OK status, never OK and never a panic",
+		Doc: "mpx-level scripted server replies to a unary / server-streaming call with: garbage bytes, an rpc request message, a stream message then close without response, an empty close, a response without status, a parser-hostile payload, a truncated response: the caller must see a non-OK status, never OK and never a panic; a follow-up call on the recycled (LIFO-pooled) call state gets a well-formed reply and must see exactly it",
 		Body: func(x *vexp.Ctx) {
 			reply := x.P("reply", 0)
 			handler := mpx.HandleFunc(func(ctx mpx.Context, ch mpx.Channel) status.Status {
 				rctx := async.NoContext()
-				if _, st := ch.Receive(rctx); !st.OK() {
+				reqb, st := ch.Receive(rctx)
+				if !st.OK() {
 					return st
+				}
+				if pm, _, err := prpc.ParseMessage(reqb); err == nil && pm.Type() == prpc.MessageType_Request &&
+					pm.Req().Calls().Len() == 1 && pm.Req().Calls().Get(0).Input().Int32(1) == 8 {
+					// the follow-up call gets a well-formed response
+					b := alloc.NewBuffer()
+					res := valueBytes("res-8")
+					defer res.Release()
+					m, err := newBuilder().buildResponse(b, res.Unwrap(), status.OK)
+					must(err)
+					return ch.SendAndClose(rctx, m.Unwrap().Raw())
 				}
 				switch reply {
 				case 0:
@@ -424,6 +442,15 @@ func init() {
 			}
 			if reply == 4 && r.st.OK() && r.result != "" {
 				x.Fail("response without status/result yields data", "result=%q", r.result)
+			}
+			// follow-up call on the recycled call state (pools are LIFO): a well-formed reply must be seen as such
+			vsched.WaitIdle("quiesce")
+			late := &c04result{kind: "ok", id: 8}
+			ldone := false
+			vsched.GoNamed("late-call", func() { c04call(c, late.kind, late.id, late); ldone = true })
+			vsched.Join("late call returned", func() bool { return ldone })
+			if !late.st.OK() || late.result != "res-8" {
+				x.Fail("call after a failed call does not get its own result", "after reply variant %d (%s call, status %v): follow-up status=%v result=%q want OK res-8", reply, r.kind, r.st.Code, late.st, late.result)
 			}
 			c.Close()
 			vsched.WaitIdle("quiesce")
@@ -490,6 +517,22 @@ func init() {
 			for _, r := range rs {
 				c04check(x, r, h, dir >= 0)
 			}
+			// follow-up calls on recycled call states: once the faulty connection is gone the client dials a
+			// healthy one, and the new calls must see only their own results
+			lateOK := "-"
+			if dir >= 0 && vc.Live() == 0 {
+				late := []*c04result{{kind: "ok", id: 31}, {kind: "sstream", id: 32}}
+				for _, r := range late {
+					r := r
+					vsched.GoNamed("late-"+r.kind, func() { c04call(c, r.kind, r.id, r) })
+				}
+				vsched.Join("late calls returned", func() bool { return late[0].done && late[1].done })
+				vsched.WaitIdle("quiesce")
+				for _, r := range late {
+					c04check(x, r, h, false)
+				}
+				lateOK = fmt.Sprintf("%v/%v", late[0].st.OK(), late[1].st.OK())
+			}
 			for _, e := range vc.Errors() {
 				if strings.Contains(e, "panic") {
 					x.Fail("panic logged: "+e[:min(len(e), 60)], "%s", e)
@@ -497,7 +540,85 @@ func init() {
 			}
 			c.Close()
 			vsched.WaitIdle("quiesce")
-			x.Outcome = fmt.Sprintf("ok=%v/%v", rs[0].st.OK(), rs[1].st.OK())
+			x.Outcome = fmt.Sprintf("ok=%v/%v late=%s", rs[0].st.OK(), rs[1].st.OK(), lateOK)
+		},
+	})
+
+	// S4: a caller gives up (context cancelled) while waiting; later calls reuse its pooled state.
+	vexp.Register(&vexp.Scenario{
+		Name: "c04.S4.call-after-cancelled-call", Prop: "C04", Also: []string{"C18"}, MaxSteps: 200000,
+		Bounds: func(thorough bool) vexp.Bounds {
+			if thorough {
+				return vexp.Bounds{P: 2, F: 1, E: 0}
+			}
+			return vexp.Bounds{P: 1, F: 1, E: 0}
+		},
+		Configs: func(thorough bool) []map[string]int {
+			var out []map[string]int
+			for first := 0; first < 2; first++ {
+				for k := range c04kinds {
+					for when := 0; when < 2; when++ {
+						out = append(out, map[string]int{"first": first, "late": k, "when": when})
+					}
+				}
+			}
+			return out
+		},
+		Doc: "a unary / server-streaming call to a handler that never answers is abandoned by cancelling its context from another goroutine (when=0: every interleaving of the cancel with the call; when=1: after the handler has started and blocked); afterwards a call of every kind runs on the recycled call state and must obtain exactly its own result; the abandoned call must report a non-OK status and its handler must be released",
+		Body: func(x *vexp.Ctx) {
+			h := &c04server{invoked: map[int]int{}, streams: map[int][]string{}}
+			srv := &server{handler: HandleFunc(h.handle)}
+			x.Params["maxconns"] = 1
+			vc := mpx.VNewClient(x, srv, false, nil)
+			srv.logger = vc.Logger()
+			c := newClient(vc.Client, vc.Logger())
+			ctx := async.NewContext()
+			defer ctx.Free()
+			var st1 status.Status
+			done := false
+			vsched.GoNamed("slow-call", func() {
+				defer func() { done = true }()
+				req := c04request("slow", 41)
+				if x.P("first", 0) == 0 {
+					res, st := c.Request(ctx, req)
+					st1 = st
+					if st.OK() {
+						res.Release()
+					}
+					return
+				}
+				ch, st := c.Channel(ctx, req)
+				if !st.OK() {
+					st1 = st
+					return
+				}
+				defer ch.Free()
+				if _, st := ch.Receive(ctx); !st.OK() {
+					st1 = st
+					return
+				}
+				_, st1 = ch.Response(ctx)
+			})
+			if x.P("when", 0) == 1 {
+				vsched.WaitIdle("handler waiting") // the handler is running and blocked; the caller waits for it
+			}
+			vsched.GoNamed("cancel", func() { ctx.Cancel() })
+			vsched.Join("abandoned call returned", func() bool { return done })
+			vsched.WaitIdle("quiesce")
+			if st1.OK() {
+				x.Fail("abandoned call reports OK although its handler never answered", "status=%v", st1)
+			}
+			late := &c04result{kind: c04kinds[x.P("late", 0)], id: 42}
+			vsched.GoNamed("late-call", func() { c04call(c, late.kind, late.id, late) })
+			vsched.Join("late call returned", func() bool { return late.done })
+			vsched.WaitIdle("quiesce")
+			c04check(x, late, h, false)
+			if h.invoked[42] != 1 {
+				x.Fail("handler not invoked exactly once for a delivered request", "%s#42: %d invocations", late.kind, h.invoked[42])
+			}
+			c.Close()
+			vsched.WaitIdle("quiesce")
+			x.Outcome = fmt.Sprintf("first=%s slowran=%d late=%v", st1.Code, h.invoked[41], late.st.OK())
 		},
 	})
 }
